@@ -271,14 +271,24 @@ def judge_history(ops, results, classes=None, counters=None):
                     if o["dump"] == alt.dump():
                         detail = "other-case-key-replaced"
                     elif k in ("set_int", "set_uint"):
-                        # same shape, only the number text differs?
+                        # same shape, only the text of this number differs?
                         n = op["num"]
-                        if n == SSIZE_MIN:
-                            detail = "wrong-text:ssize-min"
-                        elif n != 0 and str(abs(n)).strip("0") == "1":
-                            detail = "wrong-text:pow10"
-                        else:
-                            detail = "wrong-text:other"
+                        got = None
+                        md, od = m.dump(), o["dump"]
+                        if [(s_, [k_ for k_, _ in kv]) for s_, kv in md] == [(s_, [k_ for k_, _ in kv]) for s_, kv in od]:
+                            diffs = [(s_, a[0], b[1]) for (s_, kv), (_, kv2) in zip(md, od)
+                                     for a, b in zip(kv, kv2) if a[1] != b[1]]
+                            if len(diffs) == 1 and diffs[0][0] == sect and diffs[0][1] == key:
+                                got = diffs[0][2]
+                        if got is not None:
+                            digits = str(abs(n))
+                            if n == SSIZE_MIN:
+                                detail = "wrong-text:ssize-min"
+                            elif n != 0 and digits.strip("0") == "1" and len(digits) > 1 and \
+                                    got in (B(digits), B(digits[1:])):
+                                detail = "wrong-text:pow10"    # sign / leading digit overwritten
+                            else:
+                                detail = "wrong-text:other"
                 viol.append(("oracle:%s:%s" % (fn, detail), i, show_dump(m.dump()), show_dump(o["dump"])))
                 cls(k, srel, krel, sizeclass, detail)
                 break
